@@ -76,6 +76,7 @@ def run(repo: Repo, chk: Check) -> None:
     tile_factor(repo, chk)
     add_dim(repo, chk)
     drop_unit(repo, chk)
+    initial_bounds(repo, chk)
     schedule_from_op(repo, chk)
     wrappers(repo, chk)
 
@@ -415,12 +416,53 @@ def drop_unit(repo: Repo, chk: Check) -> None:
             chk.result(same, "C03.drop-unit", f"{f.key}:same-predicate", s.where(),
                        f"bounds and columns are filtered by `{canon[0][1]}` over `{canon[0][0]}`",
                        f"bounds and columns are filtered differently: {sorted(set(canon))}: a dimension keeps its column but loses its bound (or vice versa)")
+            # dropping columns is ALL that happens to the maps: no column is rewritten and the bias is the original one
+            altered = [ast.unparse(c)[:60] for c in ast.walk(v) if isinstance(c, ast.Call) and isinstance(c.func, ast.Name) and (
+                c.func.id == "__store__" or c.func.id.startswith("__mut_")) and (norm.contains(c, T("$p.A")) or norm.contains(c, T("$p.b")) or True)]
+            biases = [c.args[1] for c in ast.walk(v) if isinstance(c, ast.Call) and callee_name(c) == "AffineTransform" and len(c.args) >= 2]
+            bias_changed = [ast.unparse(norm.primary(b_))[:60] for b_ in biases if any(isinstance(x, ast.BinOp) for x in ast.walk(norm.primary(b_)))
+                            or not norm.contains(b_, T("$p.b"))]
+            if qual == "AccessPattern.canonicalize":
+                chk.result(not altered and not bias_changed, "C03.drop-unit", f"{f.key}:only-selection", s.where(),
+                           "the returned map is a column selection of the original matrix with the original bias",
+                           f"the map is changed beyond dropping unit dimensions (stores into the matrix: {altered[:2]}; bias: {bias_changed[:2]}): operands are "
+                           "canonicalised one by one, so re-orienting a dimension for one operand changes the joint index tuples")
             var, _, pred, _ = fs[0]
             keeps = {val: _abstract_eval(pred, var, val) for val in (None, 1, 2, 3, 10**9)}
             ok = keeps[1] is False and all(keeps[k] in (True, None) for k in (2, 3, 10**9)) and keeps[None] in (True, None)
             chk.result(ok, "C03.drop-unit", f"{f.key}:only-unit", s.where(),
                        "the predicate rejects exactly bound == 1",
                        f"the keep-predicate `{ast.unparse(pred)}` evaluates to {keeps} on None/1/2/3/large: it drops a dimension with more than one iteration")
+
+
+# --------------------------------------------------------------------------- the iteration box handed to the scheduler
+def initial_bounds(repo: Repo, chk: Check) -> None:
+    chk.rule(
+        "C03.initial-bounds",
+        "OperationOp.get_static_pattern_bounds returns the bound of dimension d at position d: it evaluates the shapes-to-pattern-bounds "
+        "map (the inverse permutation) on the static shapes, or builds the sequence by dimension index - never in the order in which the "
+        "dimensions happen to be used first by the operands",
+        floor=1,
+    )
+    g = repo.func("snaxc/dialects/dart.py", "OperationOp.get_static_pattern_bounds")
+    chk.analysed(g.key)
+    gfl = Flow(g, repo)
+    rets = [s for s in gfl.stmts(ast.Return) if s.reachable and s.node.value is not None]
+    if not rets:
+        raise AnalysisError(f"{g.where}: no return")
+    for n_, s in enumerate(rets, 1):
+        v = gfl.cone(s.node.value, s, inline=0)
+        by_map = depends_on(v, "$x.get_shapes_to_pattern_bounds_map().eval($s, $_)") and depends_on(v, "$x.get_static_shapes()")
+        by_index = any(isinstance(c, (ast.ListComp, ast.GeneratorExp)) and any(isinstance(g_.iter, ast.Call) and callee_name(g_.iter) == "range" for g_ in c.generators)
+                       for c in ast.walk(norm.primary(s.expand(s.node.value)))) or any(
+            isinstance(c, ast.Call) and callee_name(c) == "sorted" for c in ast.walk(norm.primary(s.expand(s.node.value))))
+        first_use = any(isinstance(c, ast.Call) and isinstance(c.func, ast.Attribute) and c.func.attr == "values" and not c.args for c in ast.walk(norm.primary(s.expand(s.node.value))))
+        if not (by_map or by_index or first_use):
+            raise AnalysisError(f"{s.where()}: the construction of the pattern bounds is not recognised")
+        chk.result(by_map or (by_index and not first_use), "C03.initial-bounds", f"{g.key}:dimension-order#{n_}", s.where(),
+                   "bounds are returned in dimension order",
+                   "the bounds are the values of a dictionary in insertion order, i.e. in the order the operands first use the dimensions: for maps "
+                   "(d0,d2),(d2,d1),(d0,d1) the bound of d2 lands on d1 (any non-square matmul is iterated over the wrong box)")
 
 
 # --------------------------------------------------------------------------- the pass
